@@ -47,7 +47,7 @@ fn mk(p: &(String, Option<(bool, String)>), tt: usize) -> CPat {
 }
 
 /// All modes of 1..=max_pats patterns with at least one lookahead, all priority orders (ordered
-/// tuples), token types in order or reversed.
+/// tuples), token types ascending and (as a second variant of every mode) descending with gaps.
 pub struct LaFamily {
     pub ps: Vec<(String, Option<(bool, String)>)>,
     pub max_pats: usize,
@@ -55,9 +55,12 @@ pub struct LaFamily {
 
 impl LaFamily {
     pub fn len(&self) -> usize {
-        (1..=self.max_pats).map(|k| self.ps.len().pow(k as u32)).sum()
+        2 * (1..=self.max_pats).map(|k| self.ps.len().pow(k as u32)).sum::<usize>()
     }
-    pub fn get(&self, mut i: usize) -> Option<Cfg> {
+    pub fn get(&self, i: usize) -> Option<Cfg> {
+        // every mode twice: token types ascending (0, 1, ..) and descending with gaps (.., 7, 3)
+        let descending = i % 2 == 1;
+        let mut i = i / 2;
         let n = self.ps.len();
         let mut k = 1;
         while i >= n.pow(k as u32) {
@@ -73,7 +76,11 @@ impl LaFamily {
         if idx.iter().all(|&j| self.ps[j].1.is_none()) {
             return None; // lookahead-free modes are C01's
         }
-        Some(Cfg::single(idx.iter().enumerate().map(|(t, &j)| mk(&self.ps[j], t)).collect()))
+        if descending && idx.len() == 1 {
+            return None; // a single pattern has no order of token types
+        }
+        let k = idx.len();
+        Some(Cfg::single(idx.iter().enumerate().map(|(t, &j)| mk(&self.ps[j], if descending { 3 + 4 * (k - 1 - t) } else { t })).collect()))
     }
 }
 
@@ -128,6 +135,7 @@ fn run_cfg(acc: &mut Acc, prop: &str, cfg: &Cfg, ins: &[String], tables: &AtomTa
             return;
         }
     };
+    let mut clean = true;
     'inputs: for input in ins {
         let table = ScanTable::new(&spec, input, tables);
         let mut starts: Vec<Option<usize>> = vec![None];
@@ -158,12 +166,75 @@ fn run_cfg(acc: &mut Acc, prop: &str, cfg: &Cfg, ins: &[String], tables: &AtomTa
                     acc.n_other += 1;
                     *acc.other_kinds.entry(format!("{:?}", d.kind)).or_default() += 1;
                 }
+                clean = false;
                 break 'inputs; // simplest witness per configuration
             }
         }
     }
+    if clean && offsets && key.is_empty() {
+        history_differentials(acc, prop, cfg, &sc, ins, key);
+    }
     if acc.samples.items.len() < 2 {
         acc.samples.push(|| json!({"family": family, "cfg": cfg.show(), "inputs": ins.len(), "start_offsets": offsets}));
+    }
+}
+
+/// History differentials on ONE iterator (no expected values: the streams of fresh iterators are
+/// what the lockstep above compared with the reference): (a) after the iterator is exhausted,
+/// set_offset(0) and a second pass give the first pass again; (b) for every boundary k, one next()
+/// followed by set_offset(k) gives what a fresh iterator with_offset(k) gives; (c) the same with a
+/// peek_n to the end instead of the next().
+fn history_differentials(acc: &mut Acc, prop: &str, cfg: &Cfg, sc: &scnr::Scanner, ins: &[String], key: &str) {
+    if prop == "C07" {
+        return;
+    }
+    let drain = |it: &mut scnr::FindMatches, input: &str| -> Vec<(usize, usize, usize)> {
+        let mut v = vec![];
+        for _ in 0..input.len() + 1 {
+            match it.next() {
+                Some(m) => v.push((m.token_type(), m.start(), m.end())),
+                None => break,
+            }
+        }
+        v
+    };
+    for input in ins {
+        let r = bridge::catch(|| -> Option<(String, Vec<String>)> {
+            let mut it = sc.find_iter(input);
+            let first = drain(&mut it, input);
+            it.set_offset(0);
+            let second = drain(&mut it, input);
+            if first != second {
+                return Some((format!("a second pass after exhaustion and set_offset(0) yields {second:?}, the first pass {first:?}"), vec!["next() until None".into(), "set_offset(0)".into(), "next() until None".into()]));
+            }
+            let bounds: Vec<usize> = input.char_indices().map(|(i, _)| i).skip(1).chain(std::iter::once(input.len())).collect();
+            for &k in &bounds {
+                let fresh = drain(&mut sc.find_iter(input).with_offset(k), input);
+                let mut it = sc.find_iter(input);
+                let _ = it.next();
+                it.set_offset(k);
+                let got = drain(&mut it, input);
+                if got != fresh {
+                    return Some((format!("after one next() and set_offset({k}) the iterator yields {got:?}, a fresh iterator with_offset({k}) yields {fresh:?}"), vec!["next()".into(), format!("set_offset({k})"), "next() until None".into()]));
+                }
+                let mut it = sc.find_iter(input);
+                let _ = it.peek_n(input.len() + 1);
+                it.set_offset(k);
+                let got = drain(&mut it, input);
+                if got != fresh {
+                    return Some((format!("after peek_n({}) and set_offset({k}) the iterator yields {got:?}, a fresh iterator with_offset({k}) yields {fresh:?}", input.len() + 1), vec![format!("peek_n({})", input.len() + 1), format!("set_offset({k})"), "next() until None".into()]));
+                }
+            }
+            None
+        });
+        acc.scans += 1;
+        let problem = match r {
+            Ok(None) => continue,
+            Ok(Some(p)) => p,
+            Err(p) => (format!("panicked: {p}"), vec![]),
+        };
+        acc.viol.add(key, || Violation { key: key.to_string(), summary: format!("{} on {:?}: {}", cfg.show(), input, problem.0), replay: json!({"configuration": cfg.to_json(), "input": input, "calls": problem.1, "disagreement": problem.0}) });
+        break;
     }
 }
 
